@@ -20,6 +20,12 @@ for f in os.listdir(src):
 hdr = open(demo).read(3000)
 m = re.search(r"go test[^\n]*?-run\s+'?\"?([^\s'\"]+)'?\"?\s+(\./\S+)", hdr)
 if not m:
+    m3 = re.search(r"cd\s+(\S+)\s*&&\s*go test[^\n]*?-run\s+'?\"?([^\s'\"]+)'?\"?\s+\.", hdr)
+    if m3:
+        class _M:
+            def group(self, i): return [None, m3.group(2), "./" + m3.group(1).strip("/")][i]
+        m = _M()
+if not m:
     m2 = re.search(r"go test[^\n]*-run\s+(\S+)[^\n]*", hdr)
     out["error"] = "cannot parse demo header"; json.dump(out, open(f"/tmp/seedconf/{name}.json","w"), indent=1); sys.exit(1)
 runpat, pkgdir = m.group(1), m.group(2).rstrip("/")
